@@ -508,6 +508,17 @@ func main() {
 			default:
 				carrier = &hdrCarrier{m: map[string]string{}}
 			}
+			if r.Chance(1, 3) {
+				// the carrier already went through an earlier hop (retry, redirect, an outer instrumentation layer):
+				// what is injected now replaces what that hop wrote
+				_, ptid, psid, pfl := genValidTP(r)
+				pcfg := trace.SpanContextConfig{TraceID: ptid, SpanID: psid, TraceFlags: trace.TraceFlags(pfl & 1)}
+				if hdr != "" {
+					pcfg.TraceState, _ = trace.ParseTraceState("earlier=hop")
+				}
+				prop.Inject(trace.ContextWithSpanContext(context.Background(), trace.NewSpanContext(pcfg)), carrier)
+				k.C.Count("rt_reinjected_carriers", 1)
+			}
 			prop.Inject(ctx, carrier)
 			tp, tsh := carrier.Get("traceparent"), carrier.Get("tracestate")
 			info := recogniseTraceparent(tp)
